@@ -343,9 +343,11 @@ def _radius_for(o, rkind, c, seed, cvalid):
     if rkind == "zero":
         return 0.0, True
     if rkind == "tiny":
-        return 1e-12, True
+        # (down to the smallest positive number: squares of such radii underflow)
+        return (1e-12, 1e-12, 1e-200, 5e-324, np.float64(1e-170))[(seed // 13) % 5], True
     if rkind == "huge":
-        return 1e6, True
+        # "huge" goes up to the largest finite number, as a Python float or a NumPy scalar: squares of such radii overflow
+        return (1e6, 1e6, 1e155, 1.0e300, 1.7976931348623157e308, np.float64(1e200), np.float64(1.7976931348623157e308))[(seed // 13) % 7], True
     if not cvalid or len(pts) == 0:
         return 1.0, True
     d = np.sort(_dist(pts, c))
